@@ -751,6 +751,8 @@ def menus() -> dict:
 
     # U. key2: choices lists, spawnflags
     def key2(**kw):
+        kw['list'] = kw.pop('lst')
+
         def f(spec):
             next(k for k in ent_a(spec)['kvs'] if k['name'] == 'key2').update(kw)
         return f
@@ -760,6 +762,9 @@ def menus() -> dict:
         ('choices_str', False, key2(type='CHOICES', default='a b', lst=[['a b', 'Words', []], ['1.5', 'Float', []], ['-1', 'Neg', []]])),
         ('choices_empty', False, key2(type='CHOICES', default='', lst=[])),
         ('choices_long', False, key2(type='CHOICES', default='0', lst=[['0', 'n' * 1001, []]])),
+        ('choices_quote', False, key2(type='CHOICES', default='0', lst=[['0', 'say "hi"', []], ['1', 'On', []]])),
+        ('choices_bslash', False, key2(type='CHOICES', default='0', lst=[['0', 'a\\nb', []], ['1', 'dir\\', ['A']]])),
+        ('choices_val_quote', False, key2(type='CHOICES', default='a"b', lst=[['a"b', 'Quoted', []], ['c d', 'Spaced', []]])),
     ]
 
     def flags(lst, name='spawnflags'):
@@ -868,6 +873,8 @@ def spec_has_backslash(spec: dict) -> bool:
             return True
         for k in e['kvs']:
             if '\\' in k['disp'] or '\\' in k['default'] or '\\' in k['desc']:
+                return True
+            if any('\\' in x for item in (k['list'] or []) for x in item if isinstance(x, str)):
                 return True
         for i in e['ins'] + e['outs']:
             if '\\' in i['desc']:
@@ -1479,7 +1486,7 @@ def run(ctx: core.Ctx) -> None:
         'tags upper-case, spawnflag/choice captions without newlines or a leading [N], a spawnflags key has no display name/default/description; '
         'custom_syntax=False cases containing a backslash are skipped (Valve syntax has no backslash escape, srctools\' reader always applies them)',
         'binary format: descriptions, helpers, kv_order and the empty-vs-absent resource list are not stored by documented design; '
-        'serialise() asserts >= 512 distinct strings, so generated engine FGDs carry three filler entities; tags/choices on keyvalues are rejected by design',
+        'serialise() asserts >= 512 distinct strings, so generated engine FGDs carry four filler entities; tags/choices on keyvalues are rejected by design',
     ]
 
 
